@@ -17,8 +17,9 @@ import (
 // ---- loads (C11/C12) -------------------------------------------------------------------------------
 
 func (s *kvSubj[K]) identityClasses() bool {
-	idK := !kvHasCmp(s.cfg.Kind) || s.d.CmpName == "nat" || s.d.CmpName == "rev" || s.d.CmpName == "natbig"
-	idV := s.cfg.Kind != "treebidimap" || s.vd.CmpName == "nat" || s.vd.CmpName == "rev" || s.vd.CmpName == "natbig"
+	id := map[string]bool{"nat": true, "rev": true, "natbig": true, "diff": true}
+	idK := !kvHasCmp(s.cfg.Kind) || id[s.d.CmpName]
+	idV := s.cfg.Kind != "treebidimap" || id[s.vd.CmpName]
 	return idK && idV
 }
 
